@@ -31,6 +31,14 @@ SEQ = 'FIX8::Session::_next_send_seq'
 def run(ctx):
     prog = Program(UNITS)
     ctx.units.update(UNITS)
+    rules(ctx, prog, 'R17.1', 'R17.2')
+    ctx.floor('R17.1', 1)
+    ctx.floor('R17.2', 5)
+
+
+def rules(ctx, prog, R1, R2):
+    """provenance and placement of the application-message store in send_process (also C25: 'the stored copy under each number is the
+    transmitted message')"""
     fn = prog.fn1(SEND)
     ctx.saw(fn)
     cfg = fn.cfg
@@ -46,7 +54,7 @@ def run(ctx):
         ctx.need(org, 'no origin found for the stored bytes')
         bad = [(k, n) for (k, n) in org if not (k == 'out' and n == enc)]
         if not bad:
-            ctx.ok('R17.1', '%s#put.bytes' % SEND, put.loc,
+            ctx.ok(R1, '%s#put.bytes' % SEND, put.loc,
                    'stored bytes derive only from the output of %s' % enc.text())
         seen = set()
         for (k, n) in bad:
@@ -54,7 +62,7 @@ def run(ctx):
             if disc in seen:
                 continue
             seen.add(disc)
-            ctx.fail('R17.1', '%s#put.bytes<-%s' % (SEND, disc), put.loc,
+            ctx.fail(R1, '%s#put.bytes<-%s' % (SEND, disc), put.loc,
                      'bytes stored by %s may come from `%s` (%s), not from the encoder output of this message'
                      % (put.text(), disc, n.loc if n is not None else ''),
                      ['definition at %s' % (n.loc if n is not None else '?')])
@@ -70,11 +78,11 @@ def run(ctx):
                         c.args and c.args[0].strip(casts=True).value == 43 for c in q.calls_in(val)):
                     return True
             return False
-        ctx.check(any(is_dup_atom(a) and pol is False for (a, pol) in atoms), 'R17.2', '%s#put.guard.notdup' % SEND, put.loc,
+        ctx.check(any(is_dup_atom(a) and pol is False for (a, pol) in atoms), R2, '%s#put.guard.notdup' % SEND, put.loc,
                   'put is dominated by the not-PossDup decision')
         ctx.check(any(pol is False and any(c.callee_qp == 'FIX8::MessageBase::is_admin' or c.callee_qp == 'FIX8::Message::is_admin'
                                            for c in q.calls_in(a)) for (a, pol) in atoms),
-                  'R17.2', '%s#put.guard.notadmin' % SEND, put.loc, 'put is dominated by !msg->is_admin()')
+                  R2, '%s#put.guard.notadmin' % SEND, put.loc, 'put is dominated by !msg->is_admin()')
         # both sides of the end-of-batch decision reach the put
         eob = [b for b, blk in cfg.blocks.items() if blk.get('cond') is not None and len(blk['succ']) == 2 and
                any(c.callee_qp == 'FIX8::Message::get_end_of_batch' for c in q.calls_in(cfg.cond_node(b)))]
@@ -85,17 +93,15 @@ def run(ctx):
             for way in (True, False):
                 tgt = [w for (w, lab) in cfg.succ[last] if lab == (b, way)]
                 reach = any(pv in cfg.reach_from(w) or w == pv for w in tgt)
-                ctx.check(reach, 'R17.2', '%s#put.batch.%s' % (SEND, way), put.loc,
+                ctx.check(reach, R2, '%s#put.batch.%s' % (SEND, way), put.loc,
                           'put reachable when get_end_of_batch() is %s' % way)
         # key and ordering w.r.t. the increment
         ctx.check(q.refers_to_member(put.args[0].strip(casts=True), SEQ) or
                   any(q.refers_to_member(x, SEQ) for x in put.args[0].walk()) and put.args[0].strip(casts=True).k != 'BinaryOperator',
-                  'R17.2', '%s#put.key' % SEND, put.loc, 'put is keyed by _next_send_seq (unmodified)')
+                  R2, '%s#put.key' % SEND, put.loc, 'put is keyed by _next_send_seq (unmodified)')
         writes = [w for (w, m) in q.member_writes(fn, SEQ)]
         ctx.need(writes, 'no increment of _next_send_seq in send_process')
         for w in writes:
             wv = cfg.vertex_of(w)
-            ctx.check(pv not in cfg.reach_from(wv), 'R17.2', '%s#put.before.incr' % SEND, w.loc,
+            ctx.check(pv not in cfg.reach_from(wv), R2, '%s#put.before.incr' % SEND, w.loc,
                       'no path from the counter update back to the put (stored under the number in the header)')
-    ctx.floor('R17.1', 1)
-    ctx.floor('R17.2', 5)
